@@ -85,9 +85,7 @@ func (e *ExecutorEngine) TerminateAllSubscriptions(eventHandler EventHandler) er
 		return nil
 	}
 
-	for id := range e.subCancellations.cancellations {
-		e.subCancellations.Cancel(id)
-	}
+	e.subCancellations.CancelAndRemoveAll()
 
 	eventHandler.Emit(EventTypeOnConnectionTerminatedByServer, "", []byte("connection terminated by server"), nil)
 	return nil
